@@ -118,10 +118,10 @@ impl Check for C07 {
         ]
     }
     fn cases(&self, tier: Tier) -> u64 {
-        tier.pick(240, 5_000)
+        tier.pick(480, 5_000)
     }
     fn min_nontrivial(&self, tier: Tier) -> u64 {
-        tier.pick(150, 3_000)
+        tier.pick(300, 3_000)
     }
     fn shard_budget(&self, tier: Tier) -> std::time::Duration {
         tier.pick(std::time::Duration::from_secs(220), std::time::Duration::from_secs(1500))
